@@ -5,7 +5,7 @@ A packet is send, and then it is acknowledged by a '+'.
 """
 
 import logging
-from queue import Queue
+from queue import Queue, Full
 from threading import Lock
 
 
@@ -56,7 +56,12 @@ class RspHandler:
                 self.logger.debug("<-- %s", msg)
 
             if msg in ["+", "-"]:
-                self._ack_queue.put(msg, timeout=0.5)
+                try:
+                    self._ack_queue.put_nowait(msg)
+                except Full:
+                    # An unconsumed ack is pending already, never block
+                    # (and eventually kill) the receiver thread.
+                    self.logger.warning("discards unexpected %s", msg)
             else:
                 self.decodepkt(msg)
 
